@@ -644,38 +644,34 @@ MUTANTS = [
     # ------------------------------------------------------------------ C01
     dict(id="c01-release-in-transaction", prop="C01", file="src/client.rs", expect="C01-R1",
          what="Q arm releases without looking at in_transaction()",
-         old='''                        .await?;
-
-                        if !server.in_transaction() {
-                            // Report transaction executed statistics.
-                            self.stats.transaction();
-                            server
-                                .stats()
-                                .transaction(self.server_parameters.get_application_name());
-
-                            // Release server back to the pool if we are in transaction mode.
-                            // If we are in session mode, we keep the server until the client disconnects.
-                            if self.transaction_mode && !server.in_copy_mode() {
-                                self.stats.idle();''',
-         new='''                        .await?;
-
-                        if !server.in_copy_mode() {
-                            // Report transaction executed statistics.
-                            self.stats.transaction();
-                            server
-                                .stats()
-                                .transaction(self.server_parameters.get_application_name());
-
-                            // Release server back to the pool if we are in transaction mode.
-                            // If we are in session mode, we keep the server until the client disconnects.
-                            if self.transaction_mode && !server.in_copy_mode() {
-                                self.stats.idle();'''),
+         old="""                        if !server.in_transaction() && !server.in_copy_mode() {
+                            // Report transaction executed statistics.""",
+         new="""                        if !server.in_copy_mode() {
+                            // Report transaction executed statistics."""),
     dict(id="c01-release-in-copy", prop="C01", file="src/client.rs", expect="C01-R2",
-         what="Q arm releases although a COPY may have started",
-         old='''                            if self.transaction_mode && !server.in_copy_mode() {
-                                self.stats.idle();''',
-         new='''                            if self.transaction_mode {
-                                self.stats.idle();'''),
+         what="Q arm releases although a COPY may have started (both copy tests of the arm removed)",
+         old="""                        if !server.in_transaction() && !server.in_copy_mode() {
+                            // Report transaction executed statistics.
+                            self.stats.transaction();
+                            server
+                                .stats()
+                                .transaction(self.server_parameters.get_application_name());
+
+                            // Release server back to the pool if we are in transaction mode.
+                            // If we are in session mode, we keep the server until the client disconnects.
+                            if self.transaction_mode && !server.in_copy_mode() {
+                                self.stats.idle();""",
+         new="""                        if !server.in_transaction() {
+                            // Report transaction executed statistics.
+                            self.stats.transaction();
+                            server
+                                .stats()
+                                .transaction(self.server_parameters.get_application_name());
+
+                            // Release server back to the pool if we are in transaction mode.
+                            // If we are in session mode, we keep the server until the client disconnects.
+                            if self.transaction_mode {
+                                self.stats.idle();"""),
     dict(id="c01-session-mode-releases", prop="C01", file="src/client.rs", expect="C01-R3",
          what="Sync arm releases in session mode too",
          old='''                            if self.transaction_mode && !server.in_copy_mode() {
@@ -722,18 +718,20 @@ pub struct ServerPool {'''),
             self.connected_to_server = false;''', new='''            self.connected_to_server = false;'''),
     dict(id="c18-sync-not-counted", prop="C18", file="src/client.rs", expect="C18-R5",
          what="Sync arm releases without counting the transaction on the server",
-         old='''                        self.buffer.clear();
+         old="""                        self.buffer.clear();
 
-                        if !server.in_transaction() {
+                        // A COPY that has only started is counted, and the server released, when it ends.
+                        if !server.in_transaction() && !server.in_copy_mode() {
                             self.stats.transaction();
                             server
                                 .stats()
                                 .transaction(self.server_parameters.get_application_name());
-''', new='''                        self.buffer.clear();
+""", new="""                        self.buffer.clear();
 
-                        if !server.in_transaction() {
+                        // A COPY that has only started is counted, and the server released, when it ends.
+                        if !server.in_transaction() && !server.in_copy_mode() {
                             self.stats.transaction();
-'''),
+"""),
     dict(id="c18-failed-checkout-stays-waiting", prop="C18", file="src/client.rs", expect="C18-R3",
          what="failed checkout leaves the client waiting",
          old='''                    // protocol buffer
@@ -876,6 +874,67 @@ pub struct ServerPool {'''),
         self.set_shard(Some(shard));''', new='''        let _ = sharder;
         let shard = sharding_key as usize % self.pool_settings.shards;
         self.set_shard(Some(shard));'''),
+    dict(id="c01-copydone-arm-releases-during-next-copy", prop="C01", file="src/client.rs", expect="C01-R2",
+         what="the CopyDone arm releases the server although its reply opened the next COPY (D37 again)",
+         old="""                        if !server.in_transaction() && !server.in_copy_mode() {
+                            self.stats.transaction();
+                            server
+                                .stats()
+                                .transaction(self.server_parameters.get_application_name());
+
+                            // Release server back to the pool if we are in transaction mode.
+                            // If we are in session mode, we keep the server until the client disconnects.
+                            if self.transaction_mode {
+                                break;
+                            }
+                        }
+                    }
+
+                    // Some unexpected message.""", new="""                        if !server.in_transaction() {
+                            self.stats.transaction();
+                            server
+                                .stats()
+                                .transaction(self.server_parameters.get_application_name());
+
+                            // Release server back to the pool if we are in transaction mode.
+                            // If we are in session mode, we keep the server until the client disconnects.
+                            if self.transaction_mode {
+                                break;
+                            }
+                        }
+                    }
+
+                    // Some unexpected message."""),
+    dict(id="c11-stray-copydone-awaited", prop="C11", file="src/client.rs", expect="C11-R11",
+         what="a CopyDone outside COPY mode is forwarded and its reply awaited (D38 again)",
+         old="""                        if !server.in_copy_mode() {
+                            self.buffer.clear();
+
+                            if !server.in_transaction() && self.transaction_mode {
+                                break;
+                            }
+
+                            continue;
+                        }
+""", new="""                        if !server.in_copy_mode() && self.buffer.len() > 1 << 30 {
+                            self.buffer.clear();
+
+                            if !server.in_transaction() && self.transaction_mode {
+                                break;
+                            }
+
+                            continue;
+                        }
+"""),
+    dict(id="c08-client-discard-all-not-tracked", prop="C08", file="src/server.rs", expect="C08-R5",
+         what="the DISCARD ALL command tag no longer empties the statement cache (half of D39 again)",
+         old="""                                "DEALLOCATE ALL" | "DISCARD ALL" => {""", new="""                                "DEALLOCATE ALL" => {"""),
+    dict(id="c03-stalled-client-kept", prop="C03", file="src/client.rs", expect="C03-R8",
+         what="a client whose message was cut by the deadline is kept (D40 again)",
+         old="""                                return Err(Error::ClientError(
+                                    "idle in transaction timeout in the middle of a message"
+                                        .into(),
+                                ));""", new="""                                break;"""),
     # ------------------------------------------------------------------ C17
     dict(id="c17-shutdown-checked-in-transaction", prop="C17", file="src/client.rs", expect="C17-R1",
          what="the transaction loop also reacts to the shutdown broadcast",
